@@ -190,7 +190,7 @@ class AdfOracle:
         self.conds = [conds.get(nm, ("bot",)) for nm in names]
         # truth tables as bit sets over the 2^n total assignments (bit x: statement i is true iff x >> i & 1)
         self.tt = None
-        if self.n <= 12:
+        if self.n <= 16:
             size = 1 << self.n
             self.full = (1 << size) - 1
             self.varmask = []
@@ -261,7 +261,24 @@ class AdfOracle:
         return [v for v in ("".join(p) for p in itertools.product("TFu", repeat=self.n)) if self.gamma(v) == v]
 
     def two_valued(self):
+        if self.tt is not None:
+            # total assignment x is a model iff every condition evaluates at x to the value x gives its statement
+            fix = self.full
+            for k in range(self.n):
+                fix &= ~(self.tt[k] ^ self.varmask[k])
+            out = []
+            x = 0
+            while fix:
+                low = fix & -fix
+                x = low.bit_length() - 1
+                out.append("".join("T" if x >> i & 1 else "F" for i in range(self.n)))
+                fix ^= low
+            # the enumeration order of the slow version: T before F, first statement most significant
+            return sorted(out, key=lambda v: v.replace("T", "0").replace("F", "1"))
         return [v for v in ("".join(p) for p in itertools.product("TF", repeat=self.n)) if self.gamma(v) == v]
+
+    def two_valued_slow(self):
+        return [v for v in ("".join(p) for p in itertools.product("TF", repeat=self.n)) if self.gamma_slow(v) == v]
 
     def stable(self):
         out = []
